@@ -6,7 +6,7 @@ CONSTANTS
   Rich = FALSE
   NumIter = 2
   Sim = FALSE
-  Fine = TRUE
+  Fine = FALSE
   Mutant = "none"
 INVARIANT PropertyHolds
 INVARIANT Emit
